@@ -57,6 +57,7 @@ type Out struct {
 	n      int
 	cur    *os.File
 	skip   map[int]bool
+	flog   *os.File
 }
 
 func NewOut(dir, stream string, seed int64) *Out {
@@ -127,6 +128,15 @@ func (o *Out) Skipped(idx int, input string) bool {
 func (o *Out) Fail(f Failure) {
 	if len(o.Sum.Failures) < 200 {
 		o.Sum.Failures = append(o.Sum.Failures, f)
+		// also on disk at once: a later crash of the whole process must not lose what the oracles already found
+		if o.flog == nil {
+			o.flog, _ = os.Create(filepath.Join(o.dir, "failures.jsonl"))
+		}
+		if o.flog != nil {
+			if b, err := json.Marshal(f); err == nil {
+				o.flog.Write(append(b, '\n'))
+			}
+		}
 	}
 }
 
